@@ -38,3 +38,31 @@ func TestBasic(t *testing.T) {
 		s.Close()
 	}
 }
+
+func TestRealPolynomialIdentity(t *testing.T) {
+	st := NewStore()
+	sol, err := NewSolver("z3", st, 20000)
+	if err != nil {
+		t.Skip(err)
+	}
+	defer sol.Close()
+	a, b, c, d := st.RealVar("a"), st.RealVar("b"), st.RealVar("c"), st.RealVar("d")
+	// (a+b)*(c+d) == a*c + a*d + b*c + b*d
+	l := st.RBin(OpRMul, st.RBin(OpRAdd, a, b), st.RBin(OpRAdd, c, d))
+	r := st.RBin(OpRAdd, st.RBin(OpRAdd, st.RBin(OpRMul, a, c), st.RBin(OpRMul, a, d)), st.RBin(OpRAdd, st.RBin(OpRMul, b, c), st.RBin(OpRMul, b, d)))
+	if res := sol.Check(st.Not(st.Eq(l, r))); res != Unsat {
+		t.Fatalf("identity: %v", res)
+	}
+	// a*b != a*c is satisfiable, model readable
+	if res := sol.Check(st.Not(st.Eq(st.RBin(OpRMul, a, b), st.RBin(OpRMul, a, c)))); res != Sat {
+		t.Fatalf("non-identity: %v", res)
+	}
+	m, err := sol.Model([]*Term{a, b, c})
+	if err != nil {
+		t.Fatal(err)
+	}
+	t.Log(m)
+	if st.RBin(OpRMul, st.RealFloat(0.5), st.RealFloat(4)) != st.RealFloat(2) {
+		t.Fatal("folding")
+	}
+}
